@@ -21,7 +21,7 @@ RULE = ('the real Bus and 2-4 real DBusClientConnections (real handshake, Hello,
         'crossed between concurrent calls. Non-trivial = >=2 calls in flight, or an introspected proxy, or a '
         'container-typed argument; distinct = distinct case JSON. In every third scenario the bus has a history: somebody connected '
         'before the participants and left, a bystander connected after (all unique names must differ). A quarter of the exported '
-        'objects provide IDBusObject only through a registered adapter.')
+        'objects provide IDBusObject only through a registered adapter; every third method is written as async def.')
 ASSUMPTIONS = ['links are FIFO byte streams; the bus offers ANONYMOUS only in this harness (keeps the cookie mechanism away '
                'from the real home directory)',
                'set-up traffic (handshake, Hello, RequestName, introspection) is delivered FIFO: only the calls are scheduled']
@@ -123,8 +123,12 @@ def _setup(case):
         params = ''.join(', a%d' % k for k in range(nargs))
         argt = '(' + ''.join('a%d, ' % k for k in range(nargs)) + ')'
         src = 'def dbus_%s(self, tok%s):\n    return self._impl(%r, tok, %s)\n' % (m['name'], params, m['name'], argt)
+        if (case['methods'].index(m) + case['nclients']) % 3 == 2:
+            # this method is written as a coroutine function; where the scripted outcome is a Deferred it awaits it
+            src = ('async def dbus_%s(self, tok%s):\n    r = self._impl(%r, tok, %s)\n    if isinstance(r, Deferred):\n'
+                   '        r = await r\n    return r\n' % (m['name'], params, m['name'], argt))
         loc = {}
-        exec(src, {}, loc)
+        exec(src, {'Deferred': defer.Deferred}, loc)
         ns['dbus_' + m['name']] = loc['dbus_' + m['name']]
     if case['nclients'] % 2:
         ns['__len__'] = lambda self: 0          # the exported object may be false in a boolean context
